@@ -105,7 +105,8 @@ def observe(case, with_meta=False):
 def stat_matches(e, o):
     k = e['k']
     if k == 'rat':
-        return (o[0] == 0 and o[1] == e['n'] and o[2] == e['d']) or (o[0] == 3 and e['d'] > MAX_DEN)
+        # the recorder only recovers rationals with a small denominator
+        return (o[0] == 0 and o[1] == e['n'] and o[2] == e['d']) if e['d'] <= MAX_DEN else o[0] in (0, 3)
     return o[0] == {'inf': 1, 'nan': 2}[k]
 
 
@@ -124,8 +125,8 @@ def vkey(what, case, detail=''):
 
 
 def compare(out, obs, lev):
-    """list of (what, d, i, expected, key detail); skipped count."""
-    bad, skipped = [], 0
+    """list of (what, d, i, expected, key detail); (judgements skipped in a band, judgements left free)."""
+    bad, skipped, free = [], 0, 0
     ver = out['verdict']
     if wrong(obs['verdict'], ver, 'pass', 'fail'):
         bad.append(('verdict', 0, 0, ver, 'expected-' + ver))
@@ -140,13 +141,14 @@ def compare(out, obs, lev):
         if not stat_matches(out['stat'][d], obs['chi2'][d]):
             bad.append(('chi2', d + 1, 0, dict(out['stat'][d]), stat_class(out['stat'][d])))
         pv = out['pv'][d]
-        skipped += sum(1 for p in pv if p in ('band', 'free'))
+        skipped += sum(1 for p in pv if p == 'band')
+        free += sum(1 for p in pv if p == 'free')
         if any(wrong(obs['pab'][d][j], pv[j], 'yes', 'no') for j in range(len(pv))):
             bad.append(('pvalue', d + 1, 0, list(pv), stat_class(out['stat'][d])))
     for m, v in enumerate(obs.get('meta', [])):
         if wrong(v, ver, 'pass', 'fail'):
             bad.append(('meta', m + 1, 0, ver, 'expected-' + ver))
-    return bad, skipped
+    return bad, (skipped, free)
 
 
 def case_of_state(st, shape, dtype='float'):
@@ -161,7 +163,7 @@ def _seen(obs):
 
 
 def _replay_blocks(blocks):
-    res = dict(n=0, evals=0, bad=[], skipped=0, distinct=set(), samples=[])
+    res = dict(n=0, evals=0, bad=[], skipped=0, free=0, distinct=set(), samples=[])
     for blk in blocks:
         st = parse_state(blk)
         out = _plain(st['out'])
@@ -182,7 +184,8 @@ def _replay_blocks(blocks):
                 continue
             bad, skipped = compare(out, obs, case['lev'])
             if k == 0:
-                res['skipped'] += skipped
+                res['skipped'] += skipped[0]
+                res['free'] += skipped[1]
             for what, d, i, exp, detail in bad:
                 res['bad'].append((vkey(what, case, detail),
                                    '%s: Chi2.tla expects %s at dataset %d bin %d; %s' % (what, exp, d, i, _seen(obs)), case))
@@ -216,6 +219,7 @@ def _account(ctx, results):
     for r in results:
         ctx.count(evaluations=r['evals'], traces=r['n'])
         ctx.cov['skipped_in_band'] += r['skipped']
+        ctx.cov['not_judged_statement_silent'] = ctx.cov.get('not_judged_statement_silent', 0) + r['free']
         for key in r['distinct']:
             ctx.distinct(key)
         for key, what, case in r['bad']:
@@ -253,13 +257,13 @@ def run_c07(ctx):
     runs = [
         ('bin1', _consts(FULL_V, FULL_E, 1, 1, ctx.pick(TEST_LEVS, all_levs)), {}),
         ('bin2', _consts([0, 1, 2], [0, 1, 2], 2, 1, ctx.pick([TEST_LEVS[1]], TEST_LEVS)), {}),
-        ('bin2s', _consts(ctx.pick([0, 1, 'nan', 'inf'], [0, 1, 'nan', 'inf', '-inf']), ctx.pick([0, 1, 'nan'], [0, 1, 'nan', 'inf']),
+        ('bin2s', _consts(ctx.pick([0, 1, 'nan', 'inf'], [0, 1, 'nan', 'inf', '-inf']), [0, 1, 'nan'],
                           2, 1, [TEST_LEVS[1]], igns=[False]), {}),
-        ('bin3', _consts(ctx.pick([0, 2], [0, 1, 2]), [0, 1], 3, 1, ctx.pick([TEST_LEVS[1]], TEST_LEVS[1:])), {}),
-        ('ds2', _consts([0, 2], [0, 1], 2, 2, [TEST_LEVS[1]]), {}),
-        ('rand_full', _consts(FULL_V, FULL_E, 8, 3, all_levs, mode='rand', nrand=ctx.pick(40, 1200)),
+        ('bin3', _consts(ctx.pick([0, 2], [0, 1, 2]), [0, 1], 3, 1, [TEST_LEVS[1]]), {}),
+        ('ds2', _consts([0, 2], [0, 1], 2, 2, ctx.pick([TEST_LEVS[1]], TEST_LEVS)), {}),
+        ('rand_full', _consts(FULL_V, FULL_E, 8, 3, all_levs, mode='rand', nrand=ctx.pick(40, 400)),
          dict(extra=['-seed', str(ctx.seed + 1)])),
-        ('rand_finite', _consts([-3, -2, -1, 0, 1, 2, 3], [0, 1, 2, 3], 8, 3, all_levs, mode='rand', nrand=ctx.pick(40, 1200)),
+        ('rand_finite', _consts([-3, -2, -1, 0, 1, 2, 3], [0, 1, 2, 3], 8, 3, all_levs, mode='rand', nrand=ctx.pick(40, 400)),
          dict(extra=['-seed', str(ctx.seed + 2)])),
         ('build', _consts(FULL_V, FULL_E, 4, 2, TEST_LEVS, mode='build'),
          dict(simulate=dict(num=nsim, file=sim), depth=15, seed=ctx.seed + 7, workers=1, coverage=False)),
@@ -269,7 +273,7 @@ def run_c07(ctx):
         name, (consts, defs), kw = run
         kw = dict(kw)
         if 'simulate' not in kw:
-            kw.update(dump=os.path.join(wd, name), workers=3, coverage=name not in big)
+            kw.update(dump=os.path.join(wd, name), workers=ctx.pick(3, 6), coverage=name not in big and ctx.quick)
         return _tlc(wd, name, consts, defs, INVS, **kw)
 
     wc, wdefs = _consts([0, 3], [0, 1], 2, 2, [TEST_LEVS[1]])
@@ -410,7 +414,7 @@ def _observe_chunk(items):
 def _code_to_spec(ctx, wd):
     rng = ctx.rng
     table = laws.chi2_table()
-    n = ctx.pick(2500, 40000)
+    n = ctx.pick(2500, 20000)
     todo = [(cid, _gen_case(rng, table)) for cid in range(1, n + 1)]
     recorded = {}
     for chunk in run_parallel(_observe_chunk, chunked(todo, 2 * NPROC)):
@@ -432,6 +436,7 @@ def _code_to_spec(ctx, wd):
         ctx.tlc(res, 'Chi2Trace/batch%d' % k)
         ctx.count(evaluations=len(batches[k]), traces=len(batches[k]))
         ctx.cov['skipped_in_band'] += int(out['skipped'])
+        ctx.cov['not_judged_statement_silent'] = ctx.cov.get('not_judged_statement_silent', 0) + int(out['free'])
         for cid, what, d, i, exp in sorted(out['bad'], key=lambda b: (b[0], b[1], b[2], b[3])):
             case, obs = recorded[cid]
             nbad += 1
